@@ -45,7 +45,7 @@ fn main() {
         i += 2;
     }
     // special sub-process modes do their own panic handling
-    let special = opts.extra.contains_key("mode");
+    let special = opts.extra.get("mode").map_or(false, |m| m != "child");
     if !special {
         install_quiet_hook();
     }
